@@ -201,6 +201,180 @@ theorem checkRefs_sound (D : Doc) (ret : Url) (nodes : List NodeId) (cert : Node
   exact ⟨fun hne => ⟨_, checkDesignation_sound D ret id n.ref _ (this.1.resolve_left hne)⟩,
     fun hne => ⟨_, checkDesignation_sound D ret id n.dynamicRef _ (this.2.resolve_left hne)⟩⟩
 
+
+/-! ### documents without `$id` (whatever the retrieval URI) -/
+
+/-- no subschema of the document carries an `$id` -/
+def NoIds (D : Doc) : Prop := ∀ x n, D.Has x → D.st.get? x = some n → n.id = ""
+
+theorem lineage_mem_has (st : Store) : ∀ (l : List NodeId) (a s : NodeId), isLineage st a l s = true →
+    ∀ x ∈ l, ∃ l', isLineage st a l' x = true := by
+  intro l
+  induction l with
+  | nil => intro a s _ x hx; simp at hx
+  | cons c l ih =>
+    intro a s h x hx
+    simp only [isLineage, Bool.and_eq_true] at h
+    rcases List.mem_cons.mp hx with hx | hx
+    · subst hx
+      exact ⟨[x], by simp [isLineage, h.1]⟩
+    · obtain ⟨l', hl'⟩ := ih c s h.2 x hx
+      exact ⟨c :: l', by simp [isLineage, h.1, hl']⟩
+
+theorem noIds_starts (D : Doc) (h : NoIds D) (x : NodeId) (hx : D.Has x) :
+    startsResourceAt D.st D.draft x = false := by
+  unfold startsResourceAt
+  cases hg : D.st.get? x with
+  | none => rfl
+  | some n =>
+    have := h x n hx hg
+    unfold startsResource
+    cases D.draft <;> simp [this]
+
+theorem noIds_filter (D : Doc) (h : NoIds D) (l : List NodeId) (s : NodeId)
+    (hl : isLineage D.st D.root l s = true) :
+    (D.root :: l).filter (startsResourceAt D.st D.draft) = [] := by
+  rw [List.filter_eq_nil_iff]
+  intro x hx
+  rcases List.mem_cons.mp hx with hx | hx
+  · rw [hx, noIds_starts D h D.root ⟨[], by simp [isLineage]⟩]; simp
+  · rw [noIds_starts D h x (lineage_mem_has D.st l D.root s hl x hx)]; simp
+
+theorem noIds_baseUri (D : Doc) (h : NoIds D) (u : Url) (l : List NodeId) (s : NodeId)
+    (hl : isLineage D.st D.root l s = true) : baseUriAlong D u l = u := by
+  unfold baseUriAlong
+  rw [noIds_filter D h l s hl]
+  rfl
+
+theorem noIds_nearest (D : Doc) (h : NoIds D) (l : List NodeId) (s : NodeId)
+    (hl : isLineage D.st D.root l s = true) : nearestResource D l = D.root := by
+  unfold nearestResource
+  have := noIds_filter D h l s hl
+  rw [List.filter_cons] at this
+  split at this
+  · simp at this
+  · rw [this]; rfl
+
+/-- such a document has one resource, identified by the retrieval URI only -/
+theorem noIds_identifies (D : Doc) (h : NoIds D) (u : Url) (k : String) (r : NodeId)
+    (hI : D.Identifies u k r) : r = D.root ∧ k = Uri.toString u := by
+  rcases hI with hI | ⟨⟨l, hl, hn⟩, u', ⟨l', hl', hu'⟩, hk⟩
+  · exact hI
+  · rw [noIds_nearest D h l r hl] at hn
+    rw [noIds_baseUri D h u l' r hl'] at hu'
+    exact ⟨hn.symm, by rw [hk, ← hu']⟩
+
+theorem noIds_idsOk (D : Doc) (h : NoIds D) (u : Url) : D.IdsOk u := by
+  intro l s n hl hn
+  have hid := h s n ⟨l, hl⟩ hn
+  constructor
+  · unfold idSyntaxOk idRead
+    simp [hid]
+  · intro hs
+    unfold startsResource at hs
+    cases hd : D.draft <;> rw [hd] at hs <;> simp [hid] at hs
+
+theorem noIds_uniqueIds (D : Doc) (h : NoIds D) (u : Url) : D.UniqueIds u := by
+  intro k r r' h1 h2
+  rw [(noIds_identifies D h u k r h1).1, (noIds_identifies D h u k r' h2).1]
+
+/-! ### certificates for references into other documents -/
+
+/-- the fragment `frag` selects `t` in the resource rooted at `r` (`lt`: lineage of `t`, for plain names) -/
+def fragCheck (D : Doc) (r : NodeId) (frag : String) (lt : List NodeId) (t : NodeId) : Bool :=
+  if frag = "" then t == r
+  else if frag.toList.head? = some '/' then Pointer.dereference D.st true true r frag == .ok t
+  else isLineage D.st D.root lt t && (nearestResource D lt == r) &&
+    (match D.st.get? t with
+     | some n => (declaredAnchors D.draft n).any fun e => e.1 == frag
+     | none => false)
+
+theorem fragCheck_sound (D : Doc) (r : NodeId) (frag : String) (lt : List NodeId) (t : NodeId)
+    (h : fragCheck D r frag lt t = true) : D.FragTarget r frag t := by
+  unfold fragCheck at h
+  unfold Doc.FragTarget
+  split at h
+  · rename_i h0
+    rw [if_pos h0]
+    simpa using h
+  · rename_i h0
+    rw [if_neg h0]
+    split at h
+    · rename_i h1
+      rw [if_pos h1]
+      simpa using h
+    · rename_i h1
+      rw [if_neg h1]
+      simp only [Bool.and_eq_true, beq_iff_eq] at h
+      obtain ⟨⟨hlt, hnt⟩, hdecl⟩ := h
+      refine ⟨⟨lt, hlt, hnt⟩, ?_⟩
+      cases hg : D.st.get? t with
+      | none => rw [hg] at hdecl; simp at hdecl
+      | some n =>
+        rw [hg] at hdecl
+        simp only [List.any_eq_true, beq_iff_eq] at hdecl
+        obtain ⟨⟨a, dyn⟩, hmem, ha⟩ := hdecl
+        simp only at ha
+        subst ha
+        exact ⟨dyn, n, hg, hmem⟩
+
+/-- the reference leaves the document: its fragment-less URI is no key of the document (`identKeys`) and is a key
+    of the Loader table, with document `x`, in which the fragment selects `t` -/
+def checkRefOut (env : Env) (D : Doc) (ret : Url) (s : NodeId) (ref : String) (ls : List NodeId) (x : NodeId)
+    (lt : List NodeId) (t : NodeId) : Bool :=
+  D.depthOk && isLineage D.st D.root ls s &&
+  match Uri.parse ref with
+  | .ok refURI =>
+    ((D.identKeys ret).all fun e =>
+      e.1 != Uri.toString (Uri.dropFragment (Uri.resolveReference (baseUriAlong D ret ls) refURI))) &&
+    (match env.loader with
+     | some tbl =>
+       (match Json.lookup (Uri.toString (Uri.dropFragment (Uri.resolveReference (baseUriAlong D ret ls) refURI))) tbl with
+        | some (.doc y) => y == x
+        | _ => false)
+     | none => false) &&
+    fragCheck ⟨D.st, D.draft, x⟩ x (Uri.resolveReference (baseUriAlong D ret ls) refURI).fragment lt t
+  | _ => false
+
+theorem checkRefOut_sound (env : Env) (top : NodeId) (b : Url) (D : Doc) (ret : Url) (s : NodeId) (ref : String)
+    (ls : List NodeId) (x : NodeId) (lt : List NodeId) (t : NodeId)
+    (h : checkRefOut env D ret s ref ls x lt t = true) : D.RefGood env top b ret s ref := by
+  unfold checkRefOut at h
+  simp only [Bool.and_eq_true] at h
+  obtain ⟨⟨hd, hls⟩, h⟩ := h
+  cases hp : Uri.parse ref with
+  | ok refURI =>
+    rw [hp] at h
+    simp only [Bool.and_eq_true, List.all_eq_true, bne_iff_ne, ne_eq] at h
+    obtain ⟨⟨hkeys, htbl⟩, hfrag⟩ := h
+    refine ⟨baseUriAlong D ret ls, refURI, ⟨ls, hls, rfl⟩, hp, Or.inr ⟨?_, x, Or.inr ?_, t, fragCheck_sound _ _ _ _ _ hfrag⟩⟩
+    · intro r hI
+      exact hkeys _ (identifies_mem D ret hd _ r hI) rfl
+    · cases hl : env.loader with
+      | none => rw [hl] at htbl; simp at htbl
+      | some tbl =>
+        rw [hl] at htbl
+        simp only at htbl
+        refine ⟨tbl, rfl, ?_⟩
+        cases hk : Json.lookup (Uri.toString (Uri.dropFragment (Uri.resolveReference (baseUriAlong D ret ls) refURI))) tbl with
+        | none => rw [hk] at htbl; simp at htbl
+        | some v =>
+          rw [hk] at htbl
+          cases v with
+          | fail => simp at htbl
+          | nilDoc => simp at htbl
+          | doc y =>
+            simp only [beq_iff_eq] at htbl
+            rw [htbl]
+  | err => rw [hp] at h; simp at h
+  | panic => rw [hp] at h; simp at h
+  | fuel => rw [hp] at h; simp at h
+
+theorem refGood_of_designates (env : Env) (top : NodeId) (b : Url) (D : Doc) (ret : Url) (s : NodeId) (ref : String)
+    (t : NodeId) (h : D.Designates ret s ref t) : D.RefGood env top b ret s ref := by
+  obtain ⟨bu, refURI, r, h1, h2, h3, h4⟩ := h
+  exact ⟨bu, refURI, h1, h2, Or.inl ⟨r, h3, t, h4⟩⟩
+
 end RComp
 end Go
 end JSV
